@@ -26,6 +26,8 @@ def validate_encoded(string):
       "NameOrient[,NameOrient...])")
 
 def validate_decoded(iterable):
+  if len(iterable) == 0:
+    raise gfapy.ValueError("the list of oriented identifiers is empty")
   for elem in iterable:
     elem = gfapy.OrientedLine(elem)
     elem.validate()
